@@ -156,3 +156,20 @@ Theorem beyond_srs_extent_outside_is_transparent :
     nth_error placement i = Some None ->
     exists p, nth_error (im_px (sub_image_source o sub placement)) i = Some p /\ px_a p = 0.
 Proof. exact sub_image_source_outside. Qed.
+
+(* transparent colour keys: WMSSource.get_map applies the key to the image of every path (direct request, or sub
+   request pasted for a request beyond the coverage), and a pixel within the tolerance of the key colour becomes
+   fully transparent whatever its alpha was *)
+Theorem colour_key_applied_on_every_path :
+  forall c tol pl raw,
+    source_image (Some c) tol pl raw = make_transparent_img c tol (source_image None tol pl raw).
+Proof. exact source_image_keyed. Qed.
+
+Theorem colour_key_pixel_is_transparent :
+  forall four c tol r g b a,
+    0 <= tol -> 0 <= a <= 255 ->
+    let '(cr, cg, cb) := c in
+    cr - tol <= r <= cr + tol -> cg - tol <= g <= cg + tol -> cb - tol <= b <= cb + tol ->
+    px_a (make_transparent_px four c tol (r, g, b, a)) = 0.
+Proof. exact make_transparent_px_key. Qed.
+
